@@ -206,7 +206,7 @@ class Body:
         r = self.reachable(start, removed_nodes=through_nodes, removed_edges=through_edges)
         return target not in r
 
-    def must_pass_fs(self, target, through_nodes=(), through_edges=(), start=0):
+    def must_pass_fs(self, target, through_nodes=(), through_edges=(), start=0, assume=None):
         """Flag-sensitive must_pass: bool locals that are only ever assigned constants are tracked exactly,
         so infeasible combinations of hand-written / drop flags are not explored."""
         through_nodes = set(through_nodes)
@@ -228,7 +228,7 @@ class Body:
                 return None
             return us
         try:
-            self.explore(0, transfer, start=start)
+            self.explore(0, transfer, start=start, assume=assume)
         except ExploreCap:
             return self.must_pass(target, through_nodes, through_edges, start)
         return not hit[0]
@@ -535,7 +535,7 @@ class Body:
                 return 1 if v == "Some" else 0 if v == "None" else None
         return None
 
-    def explore(self, init, transfer, start=0, cap=400000, follow_unwind=False):
+    def explore(self, init, transfer, start=0, cap=400000, follow_unwind=False, assume=None):
         """Flag-sensitive forward exploration.
 
         State = (bb, flag valuation, user_state). Tracked exactly: bool locals only ever assigned constants
@@ -552,7 +552,11 @@ class Body:
         fidx = {l: i for i, l in enumerate(allf)}
         nflags = len(flags)
         nstable = len(flags) + len(stable)
-        init_flags = tuple([None] * len(allf))
+        init_list = [None] * len(allf)
+        for l_, v_ in (assume or {}).items():
+            if l_ in fidx:
+                init_list[fidx[l_]] = v_
+        init_flags = tuple(init_list)
         seen = {}
         parent = {}
         st0 = (start, init_flags, init)
